@@ -28,13 +28,22 @@ where
         payload: Payload,
     ) -> Result<bool, LinkStateError> {
         let (settled, frames) = self.link_transfers(transfer, payload)?;
+        self.queue_transfers(writer, frames).await?;
+        Ok(settled)
+    }
+
+    async fn queue_transfers(
+        &self,
+        writer: &mpsc::Sender<LinkFrame>,
+        frames: Vec<LinkFrame>,
+    ) -> Result<(), LinkStateError> {
         for frame in frames {
             writer
                 .send(frame)
                 .await // cancel safe
                 .map_err(|_| self.writer_closed())?;
         }
-        Ok(settled)
+        Ok(())
     }
 
     fn writer_closed(&self) -> LinkStateError {
@@ -366,25 +375,14 @@ where
             .delivery_tag
             .clone()
             .ok_or(LinkStateError::IllegalState)?;
-        let settled = match permits {
-            // no await: all transfers are queued, or none
-            Some(permits) => {
-                let (settled, frames) = self.link_transfers(transfer, payload)?;
-                if frames.len() > permits.len() {
-                    return Err(LinkStateError::IllegalState);
-                }
-                for (permit, frame) in permits.zip(frames) {
-                    permit.send(frame);
-                }
-                settled
-            }
-            None => {
-                self.send_transfer_without_modifying_unsettled_map(writer, transfer, payload)
-                    .await?
-            }
-        };
-        match settled {
-            true => Ok(Settlement::Settled(delivery_tag)),
+        let (settled, frames) = self.link_transfers(transfer, payload)?;
+
+        // The entry in the unsettled map is made before the first transfer is handed to the
+        // session. Made afterwards, it can come too late: on a multi-threaded runtime the peer's
+        // disposition may be looked up before this task runs again, finds nothing, is dropped,
+        // and the outcome is then awaited for ever.
+        let outcome = match settled {
+            true => None,
             // If not set on the first (or only) transfer for a (multi-transfer)
             // delivery, then the settled flag MUST be interpreted as being false.
             false => {
@@ -396,12 +394,39 @@ where
                         .get_or_insert(OrderedMap::new())
                         .insert(delivery_tag.clone(), unsettled);
                 }
-
-                Ok(Settlement::Unsettled {
-                    delivery_tag,
-                    outcome: rx,
-                })
+                Some(rx)
             }
+        };
+
+        let queued = match permits {
+            // no await: all transfers are queued, or none
+            Some(permits) => match frames.len() > permits.len() {
+                true => Err(LinkStateError::IllegalState),
+                false => {
+                    for (permit, frame) in permits.zip(frames) {
+                        permit.send(frame);
+                    }
+                    Ok(())
+                }
+            },
+            None => self.queue_transfers(writer, frames).await,
+        };
+        if let Err(err) = queued {
+            if outcome.is_some() {
+                let mut guard = self.unsettled.write();
+                if let Some(map) = guard.as_mut() {
+                    let _ = map.swap_remove(&delivery_tag);
+                }
+            }
+            return Err(err);
+        }
+
+        match outcome {
+            None => Ok(Settlement::Settled(delivery_tag)),
+            Some(outcome) => Ok(Settlement::Unsettled {
+                delivery_tag,
+                outcome,
+            }),
         }
     }
 
